@@ -36,7 +36,7 @@
    Only `exact` + Print Assumptions here; proofs in RepairWo*.v. *)
 From Coq Require Import NArith List Bool.
 From JLS Require Import Generated CrcDefs Format WriteOnce WmRaw WmCore WmFsr WmProofs WmWriteOnce RepairRaw RepairModel
-  RepairProofsData RepairWo RepairWo2 RepairWo8 RepairWo10 RepairWo11 RepairWo12 RepairWoData.
+  RepairProofsData RepairWo RepairWo2 RepairWo8 RepairWo10 RepairWo11 RepairWo12 RepairWo13 RepairWo14 RepairWoData.
 Import ListNotations.
 Local Open Scope N_scope.
 
@@ -67,8 +67,8 @@ Example C03_repair_classified_fsr_image :
   let r := rp_open wm_zero_summ1 wm_zero_summN rwd_fsr_image in
   rp_fault r = 0 /\ rp_rc r = 0 /\ rw_pos rwd_fsr_image = 2928 /\ rw_T rwd_fsr_image 2928 = 3016 /\ rw_heads_below rwd_fsr_image = true /\
   rw_check true rwd_fsr_image 2928 (rp_events r) = true /\ rs_all_clear rwd_fsr_image 2928 (rp_events r) = true /\
-  length (rp_events r) = 34%nat /\ length (rs_chain 3017 rwd_fsr_image 32) = 28%nat /\
-  In (1696, fm_ch_fields (fm_sub 1696 32 rwd_fsr_image)) (rs_chain 3017 rwd_fsr_image 32) /\
+  length (rp_events r) = 34%nat /\ length (rs_chain (S (length rwd_fsr_image)) rwd_fsr_image 32) = 28%nat /\
+  In (1696, fm_ch_fields (fm_sub 1696 32 rwd_fsr_image)) (rs_chain (S (length rwd_fsr_image)) rwd_fsr_image 32) /\
   fm_tag (fm_ch_fields (fm_sub 1696 32 rwd_fsr_image)) = JLS_TAG_TRACK_FSR_DATA.
 Proof. exact rs_ex_fsr_image. Qed.
 
@@ -176,3 +176,56 @@ Example C03_repair_checker_on_crash_image :
   nth_error evs 2 = Some (WoWrite 944 (fm_sub 944 3 rpp_crash_image)) /\
   rq_counts (wo_run false wo_st0 0 (rwd_crash_log ++ firstn 2 evs ++ skipn 4 evs)) = inl (984, 11, 6, 3, 2).
 Proof. exact rq_ex_crash_image. Qed.
+
+(* ---------------------------------------------------------------- goal 4: termination of the repair branch, PARTIAL *)
+(* Properties_C03_open.v covers the scan phase and the opens that do not repair.  Here: the loop of jls_rd_open over
+   jls_track_repair_pointers (all signals, all tracks: level walk + data walk + head table) does not exhaust the model's
+   fuel.  Stated on the state of the model after that loop (w7), the model's steps from the scan result c written out.
+   Guards: rp_links_forward f (the scan phase terminates: C03_scan_phase_terminates), rw_heads_below f, and
+   rt_guard_b f (log of w7): in the given file and in every version of it that this loop produces, every CRC-valid chunk
+   header image links forward by at least one header (item_next = 0 or offset + 32 <= item_next) - decidable on
+   (file, events); that the repair's own writes keep this is NOT proved (a head table or an INDEX payload written by the
+   repair could contain a CRC-valid header image with a backward link).
+   MISSING: the two walks of jls_core_repair_fsr (rp_fsr_levels, rp_fsr_data).  Their fuel is computed from the file
+   length before the walk while the walk appends chunks; a bound needs that a walk never continues into the chunks it
+   appended (it stops there because their tag / level differ - classified, not used for a bound), and the same
+   "first fault wins" bookkeeping as in RepairWo13.v for every writer-model function the walks call. *)
+Theorem C03_repair_pointer_walks_terminate_partial :
+  forall (f : list N) (c : rp_rd) (s1 : rp_io) (rc1 : N) (s2 s3 s5 : rp_io) (r6 : wm_raw) (h6 : fm_chunk_header),
+  rp_scan f = inr c -> rp_links_forward f = true -> rw_heads_below f = true ->
+  let pos := rp_offset (rp_r (rp_io_ c)) in
+  rp_raw_open (rp_io_ c) true = (s1, rc1) -> rp_chunk_seek s1 pos = (s2, 0) -> rp_rd_chunk s2 = (s3, 0) ->
+  let w1 := rp_w_set_io (rp_w0 c) s1 in
+  let w4 := rp_bk_truncate (rp_w_set_io w1 s3) in
+  rp_chunk_seek (rp_w_io w4) pos = (s5, 0) ->
+  let w5 := rp_w_set_io w4 s5 in
+  wm_raw_wr (wm_b_raw (rp_wm_base w5 0)) (wm_ck_hdr (rp_cur s5)) (rp_payload s5) = (r6, h6) ->
+  let w6 := rp_commit w5 (wm_b_set_raw (rp_wm_base w5 0) r6) in
+  let w6a := rp_w_set_io w6 (rp_io_set_cur (rp_w_io w6) {| wm_ck_offset := wm_ck_offset (rp_cur s5); wm_ck_hdr := h6 |}) in
+  let w7 := rp_repair_all_pointers w6a in
+  rt_guard_b f (rp_log w7) = true -> rp_flt (rp_w_io w7) <> RpF_fuel.
+Proof. exact rt_open_pointer_walks_nf. Qed.
+Print Assumptions C03_repair_pointer_walks_terminate_partial.
+
+(* the hypotheses are satisfiable: the real crash image, with s1 := fst o1, rc1 := snd o1, s2 := fst o2, s3 := fst o3,
+   s5 := fst o5, r6 := fst o6, h6 := snd o6; the log of w7 has 8 entries (truncation, 3 + 4 in-place writes) *)
+Example C03_repair_pointer_walks_example :
+  match rp_scan rpp_crash_image with
+  | inr c =>
+    let pos := rp_offset (rp_r (rp_io_ c)) in
+    let o1 := rp_raw_open (rp_io_ c) true in
+    let o2 := rp_chunk_seek (fst o1) pos in
+    let o3 := rp_rd_chunk (fst o2) in
+    let w4 := rp_bk_truncate (rp_w_set_io (rp_w_set_io (rp_w0 c) (fst o1)) (fst o3)) in
+    let o5 := rp_chunk_seek (rp_w_io w4) pos in
+    let w5 := rp_w_set_io w4 (fst o5) in
+    let o6 := wm_raw_wr (wm_b_raw (rp_wm_base w5 0)) (wm_ck_hdr (rp_cur (fst o5))) (rp_payload (fst o5)) in
+    let w6 := rp_commit w5 (wm_b_set_raw (rp_wm_base w5 0) (fst o6)) in
+    let w6a := rp_w_set_io w6 (rp_io_set_cur (rp_w_io w6) {| wm_ck_offset := wm_ck_offset (rp_cur (fst o5)); wm_ck_hdr := snd o6 |}) in
+    rp_links_forward rpp_crash_image = true /\ rw_heads_below rpp_crash_image = true /\
+    snd o2 = 0 /\ snd o3 = 0 /\ snd o5 = 0 /\
+    rt_guard_b rpp_crash_image (rp_log (rp_repair_all_pointers w6a)) = true /\
+    length (rp_log (rp_repair_all_pointers w6a)) = 8%nat
+  | inl _ => False
+  end.
+Proof. exact rt_ex_crash_image. Qed.
